@@ -645,6 +645,44 @@ func builtinIntrinsics() map[string]Intrinsic {
 	I["runtime/debug.Stack"] = func(m *Machine, fn *ssa.Function, a []Value) Value { return SliceV{Nil: true} }
 	I["runtime.Caller"] = zeroRes
 	I["runtime.Callers"] = zeroRes
+	// ---- hashes as uninterpreted functions of (length, bytes): results hold for every hash function ----
+	ufBytes := func(name string, w int) func(m *Machine, b []*smt.Term) *smt.Term {
+		return func(m *Machine, b []*smt.Term) *smt.Term {
+			allConst := true
+			for _, t := range b {
+				if !t.IsConst() {
+					allConst = false
+				}
+			}
+			_ = allConst
+			if len(b) == 0 {
+				return m.ctx.UF(fmt.Sprintf("uf_%s_0", name), w, m.ctx.BV(0, 8))
+			}
+			return m.ctx.UF(fmt.Sprintf("uf_%s_%d", name, len(b)), w, b...)
+		}
+	}
+	xx := ufBytes("xxhash", 64)
+	I["github.com/cespare/xxhash/v2.Sum64"] = func(m *Machine, fn *ssa.Function, a []Value) Value { return xx(m, m.sliceBytes(a[0])) }
+	I["github.com/cespare/xxhash/v2.Sum64String"] = func(m *Machine, fn *ssa.Function, a []Value) Value { return xx(m, m.strBytes(a[0])) }
+	crc := ufBytes("crc32", 32)
+	I["hash/crc32.ChecksumIEEE"] = func(m *Machine, fn *ssa.Function, a []Value) Value { return crc(m, m.sliceBytes(a[0])) }
+	I["internal/bytealg.MakeNoZero"] = func(m *Machine, fn *ssa.Function, a []Value) Value {
+		n := m.concInt(a[0], "MakeNoZero")
+		s := make([]Value, n)
+		for i := range s {
+			s[i] = m.ctx.BV(0, 8)
+		}
+		return SliceV{A: s}
+	}
+	I["internal/bytealg.Equal"] = I["bytes.Equal"]
+	I["internal/bytealg.Count"] = func(m *Machine, fn *ssa.Function, a []Value) Value {
+		b, c := m.sliceBytes(a[0]), term(a[1])
+		r := m.ctx.BV(0, 64)
+		for _, x := range b {
+			r = m.ctx.Add(r, m.ctx.Ite(m.ctx.Eq(x, c), m.ctx.BV(1, 64), m.ctx.BV(0, 64)))
+		}
+		return r
+	}
 	I["os.Getenv"] = func(m *Machine, fn *ssa.Function, a []Value) Value { return "" }
 	I["os.LookupEnv"] = func(m *Machine, fn *ssa.Function, a []Value) Value { return TupleV{"", m.ctx.False} }
 	return I
